@@ -302,13 +302,16 @@ def run_fixed(desc):
         mr_tree = [('d', 'a'), ('d', 'a/b'), ('f', 'a/b/x'), ('d', 'd'), ('d', 'd/a'), ('d', 'd/a/b'), ('f', 'd/a/b/x'), ('f', 'a/x'), ('f', 'd/a/x'),
                    ('f', 'x'), ('d', 'b'), ('f', 'b/x'), ('d', 'd/d'), ('d', 'd/d/a'), ('f', 'd/d/a/x'), ('d', 'a/b/c'), ('f', 'a/b/c/x')]
         mr_pats = ['a/**/x', 'a/**/b/x', 'a/**', 'b/x', '*/x', 'a/*/x', 'a/b/x', 'a/**/**/x', 'x', 'a/**/c/x', '?/**/x', 'a/***/x', 'd/**/a/**/x',
-                   'b/**/x', 'a/b/**']      # (a trailing `**/` is the K16 zone)
+                   'b/**/x', 'a/b/**', 'b/', 'a/b/', 'd/a/', '*/b/']      # (a trailing `**/` is the K16 zone)
         with FC.built_tree(mr_tree) as (mroot, _r3):
             with util.chdir(mroot):
                 here = WP.Path('.')
                 ents = [e[1] for e in mr_tree]
                 for pat in mr_pats:
-                    for fl in (G.GLOBSTAR, G.GLOBSTAR | G.DOTGLOB, G.GLOBSTARLONG | G.GLOBSTAR, G.GLOBSTAR | G.EXTGLOB, G.GLOBSTARLONG):
+                    for fl in (G.GLOBSTAR, G.GLOBSTAR | G.DOTGLOB, G.GLOBSTARLONG | G.GLOBSTAR, G.GLOBSTAR | G.EXTGLOB, G.GLOBSTARLONG,
+                               G.GLOBSTAR | G.MATCHBASE, G.MATCHBASE, G.GLOBSTAR | G.MATCHBASE | G.FOLLOW, 0):
+                        if not fl & (G.GLOBSTAR | G.GLOBSTARLONG) and '**' in pat:
+                            continue       # (without GLOBSTAR a written `**` is a plain star: other clauses)
                         ry = set(here.rglob(pat, flags=fl))
                         for rel in ents:
                             q = WP.Path(rel)
